@@ -115,6 +115,15 @@ func decodeInto(c *enum.Ctx, e registry.Entry, cellv *tb.Cell, caching bool) {
 			_ = tlb.Unmarshal(cellv, p.Interface())
 		}
 	})
+	// the decoder's options are other entrances to the same codec: a decoder that records the path it is on (WithDebug)
+	// is total on the same input, also when it is used again after an error
+	cellv.ResetCounters()
+	dbg := tlb.NewDecoder().WithDebug()
+	c.Try("panic:Decoder(debug).Unmarshal:"+e.Name, func() {
+		_ = dbg.Unmarshal(cellv, reflect.New(e.Type).Interface())
+		cellv.ResetCounters()
+		_ = dbg.Unmarshal(cellv, reflect.New(e.Type).Interface())
+	})
 }
 
 func harnesses(r *fw.Run) []fw.HarnessSpec {
